@@ -145,11 +145,24 @@ def period_matches(d, period):
     raise ValueError(k)
 
 
-def ref_eval(s, d, t):
+def equal_priorities(s):
+    ps = [e["prio"] for e in s.exceptions]
+    return len(set(ps)) != len(ps)
+
+
+def ref_eval_any(s, d, t):
+    """the values the statement allows: exceptions of equal priority may be ranked either way (the statement speaks of "the"
+    highest-priority exception); what is in force is then the latest non-relinquished entry of the first in rank that has one"""
+    if not equal_priorities(s):
+        return {ref_eval(s, d, t)}
+    return {ref_eval(s, d, t, tie=1), ref_eval(s, d, t, tie=-1)}
+
+
+def ref_eval(s, d, t, tie=1):
     """value at date d (datetime.date) and time t (h, m, s, hundredths); None outside the effective period"""
     if not ref_match_range(d, s.effective[0], s.effective[1]):
         return None
-    for ex in sorted(s.exceptions, key=lambda e: e["prio"]):
+    for k, ex in sorted(enumerate(s.exceptions), key=lambda ke: (ke[1]["prio"], tie * ke[0])):
         if not period_matches(d, ex["period"]):
             continue
         cur = None
@@ -270,6 +283,8 @@ def rand_sched(rng, day, allow_cal=True):
         s.weekly = [[(t, rng.choice(vals)) for t in rand_times(rng, rng.randrange(0, 5))] for _ in range(7)]
     nex = rng.randrange(0, 5) if s.weekly is not None else rng.randrange(1, 5)
     prios = rng.sample(range(1, 17), nex)
+    if nex >= 2 and rng.random() < 0.2:
+        prios = [rng.choice(prios[:2]) for _ in range(nex)]          # several exceptions of the same priority
     for i in range(nex):
         per = rand_period(rng, day)
         while per[0] == "cal" and (not allow_cal or any(e[0] == "cal" for e in per[1])):
@@ -353,12 +368,30 @@ def check_eval(run, s, so, day, rng, every_minute):
     wit = {"schedule": s.describe(), "date": str(day)}
     pts = probe_times(s, rng, every_minute)
     refvals = [ref_eval(s, day, t) for t in pts]
+    tie = equal_priorities(s)
+    if tie:
+        # with exceptions of equal priority two rankings are allowed; the promise "no change before the reported next transition"
+        # is then judged on the values the library itself reports at the later instants
+        run.count("schedules_with_exceptions_of_equal_priority")
+        try:
+            own = [interp.eval(ld, t) for t in pts]
+        except Exception as err:
+            run.violation("eval-raised/" + type(err).__name__, dict(wit, error=repr(err)[:100]))
+            return
+        refvals = [None if r is None else getattr(r[0], "value", r[0]) for r in own]
     # index of the first later probe instant at which the interpreter's value differs
     nxt_change = [None] * len(pts)
     for i in range(len(pts) - 2, -1, -1):
         nxt_change[i] = (i + 1) if refvals[i + 1] != refvals[i] else nxt_change[i + 1]
     for i, t in enumerate(pts):
         want = refvals[i]
+        if tie:
+            allowed = ref_eval_any(s, day, t)
+            if None in allowed:
+                want = None
+            elif want is not None and want not in allowed:
+                run.violation("evaluated-value-differs-from-interpreter/exceptions-of-equal-priority", dict(wit, time=t, library=want, allowed=sorted(allowed)))
+                return
         try:
             res = interp.eval(ld, t)
         except Exception as err:
@@ -553,6 +586,10 @@ def _timer_run(run, s, start_day, ndays, rng, with_app, zone):
         wall_date, wall_time = local_wall(max(float(T), CLK.now))
         dt = "%s %02d:%02d:%02d.%02d" % ((wall_date,) + wall_time)
         want = ref_eval(s, wall_date, wall_time)
+        if want is not None and equal_priorities(s):
+            allowed = ref_eval_any(s, wall_date, wall_time)
+            cur = getattr(so.presentValue, "value", so.presentValue)
+            want = cur if cur in allowed else want
         run.count("timer_probes")
         if zone:
             run.count("timer_probes_in_a_zone_with_daylight_saving_time")
@@ -576,7 +613,9 @@ def main():
         "TZ=UTC for the evaluations; a fifth of the timer-driven runs switch the process to a zone with daylight saving time "
         "(time.tzset) on days away from the switch dates; calendar/datetime/time (standard library) are the calendar reference",
         "outside the effective period no value is demanded, only that the interpreter keeps running and is right again inside",
-        "time lists are strictly increasing, exception priorities distinct, all times have hundredths 0 (the timer has one-second resolution)",
+        "time lists are strictly increasing; a tenth of the listed times have non-zero hundredths; a fifth of the schedules with several "
+        "exceptions give some of them the same priority: either ranking among those is accepted for the value, and the no-change "
+        "promise is then judged on the library's own later values",
         "a date range bound of all-255 means unbounded; partly wildcarded range bounds are not generated"])
     if run.tier == "replay":
         run.inconclusive_because("replay: re-run the tier with the same VERIF_SEED (cases are derived from it)")
